@@ -320,18 +320,6 @@ func namedOf(t types.Type) *types.Named {
 	return n
 }
 
-func fieldIndex(s *types.Struct, name string) int {
-	if s == nil {
-		return -1
-	}
-	for i := 0; i < s.NumFields(); i++ {
-		if s.Field(i).Name() == name || canonField(s.Field(i)) == name {
-			return i
-		}
-	}
-	return -1
-}
-
 // FuncByRole finds a function by its expected name, or — when it was renamed — by a role
 // predicate over the module functions of the package (exactly one match is required).
 func (w *World) FuncByRole(pkgRel, name string, role func(fn *ssa.Function) bool) *ssa.Function {
